@@ -243,6 +243,10 @@ func check(args []string) int {
 	}
 	evidencePath := filepath.Join(root, "evidence", id+".json")
 	os.MkdirAll(filepath.Dir(evidencePath), 0o755)
+	if r := os.Getenv("VERIF_REPO"); r != "" && r != "/repo" {
+		// a run against a scratch copy of the repository is no evidence about /repo
+		evidencePath = filepath.Join(work, "evidence.json")
+	}
 
 	results, crashes, code := runWorkers(bin, id, *tier, seed, *runs, *wall, nw, work, replayDir, false)
 	if code == 2 {
